@@ -12,6 +12,11 @@ def showMem (m : Mem Int) (size : Nat) : String :=
 
 def showLog (l : List String) : String := " log " ++ ";".intercalate l
 
+/-- `std::string` as a value type with a non-commutative `+` (request `accs`) -/
+instance : Add String := ⟨String.append⟩
+
+def letter (v : Int) : String := String.singleton (Char.ofNat (97 + (v.emod 26).toNat))
+
 /-- functor state: by-value call counter and shared call log -/
 abbrev St := Nat × List String
 
@@ -26,15 +31,18 @@ def answer (algo : String) (ra : Bool) (N : Nat) (a : Array Int) (cells : Array 
     s!"ret {r.1}" ++ showMem r.2 sz
   | "fill" => "ok" ++ showMem (fill N (n 0) (g 1) m) sz
   | "tr1" =>
-    let op : St → Int → St × Int := fun s x => ((s.1 + 1, s.2 ++ [toString x]), g 2 * x + g 3 + s.1)
+    let op : St → Int → St × Int := fun s x => ((s.1 + 1, s.2 ++ [toString x]), (g 2 * x + g 3 + s.1).tmod P)
     let r := transform1 op N (0, []) (n 0) (n 1) m
     s!"ret {r.1}" ++ showLog r.2.1.2 ++ showMem r.2.2 sz
   | "tr2" =>
     let op : St → Int → Int → St × Int := fun s x y =>
-      ((s.1 + 1, s.2 ++ [s!"{x},{y}"]), g 3 * x - g 4 * y + s.1)
+      ((s.1 + 1, s.2 ++ [s!"{x},{y}"]), (g 3 * x - g 4 * y + s.1).tmod P)
     let r := transform2 op N (0, []) (n 0) (n 1) (n 2) m
     s!"ret {r.1}" ++ showLog r.2.1.2 ++ showMem r.2.2 sz
   | "acc" => s!"val {accumulatePlus N (n 0) m (g 1)}"
+  | "accs" =>
+    let ms : Mem String := fun i => letter (m i)
+    s!"val {accumulatePlus N (n 0) ms "I"}"
   | "accop" =>
     let op : St → Int → Int → St × Int := fun s x y =>
       ((s.1 + 1, s.2 ++ [s!"{x},{y}"]), (g 2 * x + g 3 * y + s.1).tmod P)
